@@ -30,6 +30,7 @@ PROPS = {
     "C06": "vf.harness.C06",
     "C07": "vf.harness.C07",
     "C08": "vf.harness.C08",
+    "C09": "vf.harness.C09",
     "C10": "vf.harness.C10",
     "C11": "vf.harness.C11",
     "C12": "vf.harness.C12",
